@@ -839,15 +839,22 @@ class C19(Prop):
     technique = ("Rocq proof (list-structural induction over frames and scenes; fold invariants for get_object_status; case analysis over the "
                  "comparisons of get_area_idx) about a Gallina model of the analyzer's table and summaries; in-Coq correspondence against the real "
                  "PerceptionAnalyzer3D on frame results produced by the real manager")
-    level_text = ("Theorems (Props/C19.v, closed under the global context), for ALL lists of scenes / frames with any mix of TP/FP/TN/FN items: the table is one "
+    level_text = ("36 theorems (Props/C19.v, closed under the global context), for ALL lists of scenes / frames with any mix of TP/FP/TN/FN items: the table is one "
                   "row pair per item in TP, FP, TN, FN order numbered consecutively; num_tp/fp/tn/fn equal the summed sizes of the pass/fail lists (also per "
-                  "scene), num_estimation = sum(|TP|+|FP|); num_ground_truth = sum(|TP|+|FP with GT|+|TN|+|FN|) = critical ground truths + FP pairs with an "
-                  "ordinary ground truth (so the documented equality is refuted by the F11 witness and holds exactly when no such pair exists); errors are "
-                  "GT - estimate of the paired rows, the yaw error lies in [-pi, pi] and is congruent to the difference; mean / RMS^2 / std^2 / max / min "
-                  "definitions; every rate in [0,1] for every table and selection (also with the overcount); the confusion matrix sums to the number of "
-                  "paired rows and each entry is the count of (gt label, est label); get_area_idx on generate_area_points(1|3|9) is exactly the band "
-                  "function (strict inequalities, None on grid lines and outside, never two areas); get_object_status = per-uuid filter of the status "
-                  "events, once per frame exactly when the frame's ground-truth rows have distinct uuids (refuted by the F11 witness).")
+                  "scene and under any keyword selection), num_estimation = sum(|TP|+|FP|); num_ground_truth = sum(|TP|+|FP with GT|+|TN|+|FN|) = critical ground "
+                  "truths + FP pairs with an ordinary ground truth (so the documented equality is refuted by the F11 witness and holds exactly when no such pair "
+                  "exists); errors are GT - estimate of the paired items (TP pairs, FP pairs with a GT), the yaw error of two yaws in [-pi, pi] lies in [-pi, pi] "
+                  "and equals the difference or the difference -+ 2 pi; summarize() = mean / RMS^2 / std^2 (= mean square - mean^2 >= 0) / max|.| / min|.| (both "
+                  "attained) and the ALL row of summarize_error on the built table is that summary of the paired differences; the ALL rates are in [0,1] for every "
+                  "built table and every selection of its row pairs (also with the F11 overcount, also through analyze()); a label row is in [0,1] when TP pairs "
+                  "carry equal labels and exceeds 1 on the F15 witness (statement refuted); the confusion matrix of any table is nc x nc, sums to the number of "
+                  "paired rows, each entry is the count of (gt label, est label), None iff no paired row, error iff a label is not listed; generate_area_points is "
+                  "defined exactly for 1/3/9 and, for ALL rational max_x, max_y and points, get_area_idx on its areas is the band function (index 0 | x band | "
+                  "3 * y band + x band, band 0 = (max/3, max); strict inequalities; an index iff strictly inside that rectangle; never two areas, i.e. it never "
+                  "raises; for max > 0 None exactly outside (-max, max) or on a grid line); get_object_status has one record per distinct ground-truth uuid in "
+                  "first-appearance order whose TP/FP/TN/FN lists are the per-frame filters of the pass/fail lists and whose total is their per-frame "
+                  "concatenation; with distinct frame numbers every record lists each frame at most once if and only if every frame's ground truths with a "
+                  "status have distinct uuids (the unguarded statement is refuted by the F11 witness: FP and FN in the same frame).")
     level_note = ("Trusted: Coq kernel + vm_compute; pandas selections modelled as list filters and validated by the correspondence (every row, the counters "
                   "under label/scene/frame/area/status/uuid selections, error arrays, summaries, ratios, confusion matrix, analyze(), status tallies); facts "
                   "(ego-frame x/y/yaw) are read through the public TransformDict.transform and independently compared by the oracle with the generated "
@@ -858,9 +865,15 @@ class C19(Prop):
             "non-trivial = at least 2 frames with at least one TP and one FP or FN")
     assumptions = ["pandas indexing semantics are modelled as list filters (validated on every run, not proved)",
                    "conservation of critical ground truths over the four lists (C03) is a hypothesis of the ground-truth-count theorems; it is checked in Coq on every real frame",
-                   "per-label TP rate <= 1 needs TP pairs to carry equal labels (the ALL row needs nothing)"]
+                   "per-label rates in [0,1] need TP pairs to carry equal labels (the ALL row needs nothing; without the guard: F15 refutation)",
+                   "yaw wrap: both yaws in [-P, P] for the value P > 0 used as pi (binary64 np.pi in the correspondence)",
+                   "areas: the model's generate_area_points computes np.arange exactly in Q (compared with the real arrays to 1e-9 on every run); the None-iff-on-a-grid-line clause assumes max_x, max_y > 0",
+                   "once-per-frame equivalence: the frames of one get_object_status call have distinct frame numbers (needed for the 'if' direction only)"]
     not_proved = ["GMM / plotting / summarize_score (metrics are C04/C05)", "vx, vy, speed, nn_plane error columns (no velocities in the generated objects; nn_plane needs corner geometry)",
-                  "binary64 rounding inside np.arange / the subtraction of yaws (tolerance 1e-9; +-pi ambiguity handled modulo 2 pi)",
+                  "binary64 rounding inside np.arange / the subtraction of yaws (tolerance 1e-9; +-pi ambiguity handled modulo 2 pi); on the real binary64 grid lines (neighbours of max/3) the area of a point within 1 ulp of a line is only validated",
+                  "RMS and std themselves (square roots): the theorems are about their squares",
+                  "per-label summarize_error rows are characterised only as the summary of the error pairs of the label's row pairs (definitional), not reduced to the frames' items",
+                  "that distinct uuids among a frame's ground truths plus 'no FP pair with an ordinary ground truth' imply the once-per-frame guard (needs C03's description of the four lists; the guard itself is exact)",
                   "behaviour of queries on the initial empty DataFrame is modelled as an explicit error and only validated"]
 
     def correspondences(self):
